@@ -25,6 +25,11 @@ NOVEL_GENE = re.compile(r"^novel_gene_(.+)_(\d+)$")
 @st.composite
 def scenarios(draw):
     src = S.DrawSrc(draw)
+    if src.bool(0.08):
+        # a gene whose reads form two separate clusters, with another gene's cluster between them
+        sc = S.gen_islands_locus(src, nested=src.bool(0.8))
+        sc["opts"] = common_opts(src, True)
+        return sc
     annotated = src.bool(0.65)
     sc = S.gen_discovery(src, n_chroms=(1, 3), genes_per_chrom=(1, 3), with_annotation=annotated,
                          novel_per_gene=(1, 3), reads_known=(0, 6), reads_novel=(2, 30),
